@@ -36,6 +36,8 @@ type Pkg struct {
 	Name  string // declared package name
 	Files []*File
 	Idx   int
+	// Consumer: the package declares no annotations of its own
+	Consumer bool
 }
 
 func (p *Pkg) Path() string { return Module + "/" + p.Dir }
@@ -140,6 +142,7 @@ type TypeDecl struct {
 	IfaceMethods  []string   // for KIface: method signatures
 	AliasOf       *TypeRef   // if non-nil this is an alias declaration: type Name = X
 	Elem          *TypeRef   // element type of KSliceOf / KMapOf
+	DefOf         *TypeDecl  // type Name DefOf: a defined type built from another struct type (shares its fields, not its methods or annotations); Fields holds copies of the writable basic fields
 	methodsClosed bool       // all methods of this type have been generated
 }
 
@@ -211,6 +214,7 @@ type FuncDecl struct {
 	RetSite     *Site  // optional site that is the return statement
 	RetVar      *Var   // if set: return <RetVar.Name>
 	DocPrefix   string // as TypeDecl.DocPrefix
+	Fluent      bool   // a method that returns its own receiver: func (r *T) W0() *T { return r }
 	Generic     bool   // func Name[K any](k0 K, params...): callers may instantiate explicitly
 	done        bool   // body complete (usable as a call target)
 	called      bool   // referenced from a site: must stay in a regular file
@@ -282,15 +286,16 @@ type Site struct {
 	Field2      *Field // second field (imm.tuple2)
 	Opnd        *Var
 	Fn          *FuncDecl
-	Inst        bool   // the callee carries explicit type arguments: F[int](...)
-	ParenCallee bool   // the callee is parenthesised: (q.F)(...), (x.M)(...)
-	ParenTarget bool   // the written target is parenthesised: (x.f) = v, (x.f)++, (*r) = v
-	Aux         string // kind-specific
-	Local       string // name of a local variable introduced / used
-	LocalVar    *Var   // if set, the introduced local (its Name overrides Local)
-	Multi       bool   // rendered over several lines (diagnostic expected on the tagged line)
-	Form        string // how an expression site is embedded: "" (_ = E) | return | define | pkgvar
-	Grouped     bool   // inside a var ( ... ) group (set by the renderer)
+	Fn2         *FuncDecl // second method of a chain x.Fn().Fn2() (mcall.chain)
+	Inst        bool      // the callee carries explicit type arguments: F[int](...)
+	ParenCallee bool      // the callee is parenthesised: (q.F)(...), (x.M)(...)
+	ParenTarget bool      // the written target is parenthesised: (x.f) = v, (x.f)++, (*r) = v
+	Aux         string    // kind-specific
+	Local       string    // name of a local variable introduced / used
+	LocalVar    *Var      // if set, the introduced local (its Name overrides Local)
+	Multi       bool      // rendered over several lines (diagnostic expected on the tagged line)
+	Form        string    // how an expression site is embedded: "" (_ = E) | return | define | pkgvar
+	Grouped     bool      // inside a var ( ... ) group (set by the renderer)
 }
 
 func (s *Site) stmtNode() *Node { return &s.Node }
@@ -364,6 +369,9 @@ func walkDecl(pkg *Pkg, f *File, d Decl, fn func(SiteInfo)) {
 		ctx := Ctx{Pkg: pkg, File: f, TypeDecl: d}
 		fn(SiteInfo{Site: d.declSite(), Ctx: ctx})
 		for _, fl := range d.Fields {
+			if d.DefOf != nil {
+				break // the fields are written in DefOf's declaration only
+			}
 			if fl.JoinPrev {
 				continue // shares the line (and the tag) of the declaration's first name
 			}
